@@ -4,6 +4,7 @@ package main
 
 import (
 	"fmt"
+	"runtime/debug"
 	"go/types"
 	"math/big"
 	"os"
@@ -25,6 +26,7 @@ type Scope struct {
 	old   *Scope
 	bound map[string]Term
 	mode  string
+	head  *Scope // state at the head of the enclosing cut loop (for athead(...))
 }
 
 func (f *Frame) scope(ns nodeState) *Scope {
@@ -32,7 +34,7 @@ func (f *Frame) scope(ns nodeState) *Scope {
 }
 
 func (sc *Scope) with(name string, t Term) *Scope {
-	n := &Scope{ex: sc.ex, names: sc.names, st: sc.st, old: sc.old, bound: map[string]Term{}}
+	n := &Scope{ex: sc.ex, names: sc.names, st: sc.st, old: sc.old, bound: map[string]Term{}, head: sc.head}
 	for k, v := range sc.bound {
 		n.bound[k] = v
 	}
@@ -41,6 +43,9 @@ func (sc *Scope) with(name string, t Term) *Scope {
 }
 
 func (sc *Scope) errorf(e *SExpr, format string, args ...any) {
+	if os.Getenv("GVC_TRACE") != "" {
+		debug.PrintStack()
+	}
 	panic(specError{fmt.Sprintf("contract expression %q: %s", e.String(), fmt.Sprintf(format, args...))})
 }
 
@@ -488,6 +493,19 @@ func (sc *Scope) call(e *SExpr) Term {
 		}
 		o := &Scope{ex: sc.ex, names: sc.old.names, st: sc.old.st, old: sc.old, bound: sc.bound}
 		return o.eval(e.Args[0])
+	case "athead":
+		if sc.head == nil {
+			sc.errorf(e, "athead() is only available at a loop back edge")
+		}
+		// the state and the variables as they were at the loop head; names that only exist in the body keep
+		// their current value (they are plain values, e.g. the key just computed)
+		hn := copyNames(sc.names)
+		for k, v := range sc.head.names {
+			hn[k] = v
+		}
+		h := &Scope{ex: sc.ex, names: hn, st: sc.head.st, old: sc.old, bound: sc.bound}
+		h.head = h // athead inside athead is the same state
+		return h.eval(e.Args[0])
 	case "ite":
 		c := sc.evalBool(e.Args[0])
 		var a, b Term
@@ -551,6 +569,13 @@ func (sc *Scope) call(e *SExpr) Term {
 			return FieldOf(t, 0)
 		}
 		sc.errorf(e, "deref of %s", t.Sort)
+	case "hfloor":
+		// floor(x / 2) in either mode
+		t := sc.eval(e.Args[0])
+		if t.Sort.Kind == KReal {
+			return toReal(App(SInt, "to_int", App(SReal, "/", t, IntLit64(2, SReal))))
+		}
+		return App(SInt, "div", t, IntLit64(2, SInt))
 	case "real":
 		return toReal(sc.eval(e.Args[0]))
 	case "floor":
@@ -596,7 +621,31 @@ func (sc *Scope) call(e *SExpr) Term {
 		if len(m.Params) != len(e.Args) {
 			sc.errorf(e, "macro %s expects %d arguments", m.Name, len(m.Params))
 		}
-		inner := &Scope{ex: sc.ex, names: map[string]Val{}, st: sc.st, old: sc.old, bound: sc.bound}
+		// the macro's parameters shadow bound variables of the same name at the call site (no capture)
+		ib := map[string]Term{}
+		for k, v := range sc.bound {
+			ib[k] = v
+		}
+		for _, p := range m.Params {
+			delete(ib, p)
+		}
+		inner := &Scope{ex: sc.ex, names: map[string]Val{}, st: sc.st, old: sc.old, bound: ib}
+		if sc.head != nil {
+			// athead() inside a macro body: same argument bindings, evaluated in the loop-head state
+			hn := map[string]Val{}
+			hsc := &Scope{ex: sc.ex, names: sc.head.names, st: sc.head.st, old: sc.old, bound: sc.bound}
+			for i, p := range m.Params {
+				func() {
+					defer func() { recover() }()
+					if isLit(e.Args[i]) {
+						hn[p] = Val{T: hsc.evalWant(e.Args[i], nil)}
+					} else {
+						hn[p] = hsc.evalVal(e.Args[i])
+					}
+				}()
+			}
+			inner.head = &Scope{ex: sc.ex, names: hn, st: sc.head.st, bound: ib}
+		}
 		for i, p := range m.Params {
 			if isLit(e.Args[i]) {
 				inner.names[p] = Val{T: sc.evalWant(e.Args[i], nil)}
@@ -618,7 +667,7 @@ func (sc *Scope) call(e *SExpr) Term {
 					}
 				}()
 			}
-			inner.old = &Scope{ex: sc.ex, names: on, st: sc.old.st, bound: sc.bound}
+			inner.old = &Scope{ex: sc.ex, names: on, st: sc.old.st, bound: ib}
 			inner.old.old = inner.old
 		}
 		return inner.eval(m.Body)
@@ -653,7 +702,9 @@ func (sc *Scope) lemmaInstance(e *SExpr, lm *Lemma) Term {
 		sc.errorf(e, "lemma %s expects %d arguments", lm.Name, len(lm.Params))
 	}
 	for _, p := range lm.Preludes {
-		sc.ex.needPrelude(p)
+		// "<name>def" preludes give definitions that only the lemma's own proof may unfold; users of the lemma
+		// work with the declaration-only prelude <name>
+		sc.ex.needPrelude(strings.TrimSuffix(p, "def"))
 	}
 	inner := &Scope{ex: sc.ex, names: map[string]Val{}, st: sc.st, bound: map[string]Term{}}
 	var transfer []Term
